@@ -28,6 +28,7 @@ var slotDefs = []slotDef{
 	{"echo", "String", []*hx.Arg{strArg()}, "Echo"}, {"pick", "String", []*hx.Arg{strArg(), boolArg()}, "Pick"},
 	{"greet", "String", nil, "Greet"}, {"flip", "Boolean", []*hx.Arg{boolArg()}, "Flip"},
 	{"swap", "String", []*hx.Arg{strArg(), boolArg()}, "Swap"}, {"peer", "C", nil, "Peer"}, {"peers", "[C]", nil, "Peers"}, {"count", "Int", nil, "Count"},
+	{"risky", "String", []*hx.Arg{strArg()}, "Risky"},
 	{"vals", "[V]", nil, "Vals"}, {"val", "V", nil, "Val"},
 }
 
